@@ -67,6 +67,7 @@ def plan(tier, seed):
                                         scs.append(dict(cell=ci, s=si, q=qi, r=ri, place=pl, replace_all=ra, ignore=ig, fraction=f, pose=pose))
     scs += [dict(many=n, ignore=ig, r=r) for n in (6, 7) for ig in (0, 1) for r in (0, 1)]
     scs += [dict(large=v, ignore=ig) for v in (0, 1) for ig in (0, 1)]
+    scs += [dict(rhistory=hi, base=[si, ri], ignore=ig) for si in (0, 4) for ri in (1, 2, 4, 9) for ig in (0, 1) for hi in range(len(REPLACE_HISTORIES))]
     return dict(scenarios=scs, exhaustive=True, chunk=40,
                 menus=dict(cells=[G.CELLS[i][0] for i in CELLSEL], structures=[s[0] for s in STRUCTS], search=[s[0] for s in SEARCH], replacements=[r[0] for r in replacements(['C', 'N'], SEARCH[0][2])],
                            placements=[p[0] for p in PLACES], replace_all=[0, 1], ignore_flag=[0, 1], fractions=[1.0, 0.5], draws='every sample subset and tie-break answer (unbounded: the trees are small)'),
@@ -75,8 +76,25 @@ def plan(tier, seed):
                 assumptions=['deletion sets are computed from the matches the call actually used (recorded at the find seam)'])
 
 
+def history_case(sc, ctx):
+    """structure whose C-N occurrences share the N atom (chain / star), search C-N, replacement variant ri; 'other' replacements for the histories"""
+    si, ri = sc['base']; cell = G.CELLS[2][1]
+    sname, sel_, scoord = STRUCTS[si]
+    pos = wrap((sub_poses(ctx['seed'])[4] @ np.array(scoord, float).T).T + np.array(PLACES[1][1]) @ cell, cell)
+    by = wrap(np.array([[0.3, 0.1, 0.12], [0.6, 0.85, 0.2]]) @ cell, cell)
+    s = Atoms(elements=list(sel_) + ['Kr', 'Ar'], positions=np.vstack([pos, by]), cell=cell.copy(), charges=[0.1 * (i + 1) for i in range(len(sel_) + 2)])
+    qname, qel, qpos = SEARCH[0]
+    reps = replacements(qel, qpos)
+    other = {'all elements changed': 3, 'identical': 5, 'one element changed': 2, GROWN: 4}
+    return dict(s=s, sp=pattern_atoms(qel, qpos), rp=pattern_atoms(reps[ri][1], reps[ri][2]), pel=list(qel), pp=np.array(qpos, float),
+                other=lambda which: pattern_atoms(reps[other[which]][1], reps[other[which]][2], q0=0.9, g0=70))
+
+
 def run(sc, ctx):
     out = dict(evals=0, compared=0, violations=[], outcomes={}, hashes={h64(sc)}, nontrivial=0)
+    if 'rhistory' in sc:
+        # refusal / acceptance after a history must be that of fresh objects with the same content
+        judge_replace_history(run_replace_history(sc, ctx, build=history_case, extra_kw=dict(ignore_atoms_should_not_be_deleted_twice=bool(sc['ignore']))), sc, out, 'refusal'); return out
     if 'many' in sc:
         # n^3 isolated H atoms (216 / 343): hundreds of matches, none overlapping; H -> F or H -> nothing
         n = sc['many']; L = 3.0 * n; g = np.arange(n) * 3.0 + 1.0
